@@ -151,6 +151,7 @@ def truthfulness(ctx, rep):
     attrib.check_graph_store(ctx, rep, "TE3")
     attrib.check_parser_positions(ctx, rep, "TE4")
     attrib.check_encoder_fragment_offsets(ctx, rep, "TE5")
+    attrib.check_encoder_branch_offsets(ctx, rep, "TE6")
     for rule, fl in (("TI1", 1), ("TI2", 2), ("TI3", 3), ("TI4", 3), ("TC1", 3), ("TO1", 1), ("TO2", 1), ("TE1", 2), ("TE2", 1), ("TE3", 3), ("TE4", 1)):
         rep.floor(rule, fl)
     rep.analysed.update({"derivation": roles["D"].qual, "index_reader": roles["index_reader"].qual, "writer": wr["W"].qual,
